@@ -32,6 +32,14 @@ callees (rolled back with a failing frame, the caller's cells under DELEGATECALL
 memory the program returns. Not generated: nested mappings, packed / non-256-bit keys, struct offsets, literal
 locations far from every registered hash (plain slots beyond 2^64), hashed TLOAD / TSTORE.
 
+Two transactions (Model.SevmCalls `nextTx` / `runCFrom`; `SEVM.run_message` with `path.extend_path`, as
+`__main__.run_message` runs a test after setUp): four programs in ten (never static ones) are run as the "setUp"
+message — the same code, no argument words — and then, when exactly one path of that run ends without error (`setup()`'s
+rule; otherwise both sides must report `setup:<count>`), as the message with its symbolic arguments from the state
+that path left: storage of every account, code (created accounts), balances, the CREATE counter, the hashed cells
+and the path conditions are inherited, transient storage is fresh, loop counters start again. These programs begin
+with a probe `s[k] += c; t[k] += c; m[key] += c` so that each of these rules is visible in the final state.
+
 What the generator deliberately avoids, because there the model is an approximation or z3's simplifier is stronger than
 the driver's (Driver/Sevm.lean: constant folding + double-negation elimination):
   * symbolic values in the positions `int_of` concretises through `substitute(x, substitution)` (JUMPI/JUMP targets,
@@ -908,7 +916,7 @@ def compare_core(ctx, n):
             ctx.count("core:" + k, v)
         loop = rng.choice([1, 2, 2, 3])
         oracle = rng.choice(["unknown", "unknown", "sat"])
-        if ("call:value" not in g.hist and any(k in g.hist for k in ("sto:SSTORE", "sto:TSTORE")) and rng.random() < 0.1) or (callees and "call:value" not in g.hist and rng.random() < 0.25):
+        if not want2 and (("call:value" not in g.hist and any(k in g.hist for k in ("sto:SSTORE", "sto:TSTORE")) and rng.random() < 0.1) or (callees and "call:value" not in g.hist and rng.random() < 0.25)):
             oracle += "+static"
             ctx.count("core:static-frame")
         if "+static" not in oracle and want2:
